@@ -15,6 +15,11 @@ THEOREMS = [_P + n for n in [
     "resolved_once", "outcome_stable", "winner_step", "winner_is_first_success", "ok_only_from_success",
     "timeout_only_from_ctick", "fail_only_from_failure_or_tick", "no_new_streams_after_done",
     "split_keeps_every_entry",
+    "inv_reachable", "remaining_accounting", "inflight_undelivered", "winner_step_reachable",
+    "winner_is_first_success_reachable", "losers_closed", "one_inflight_per_family_general",
+    "one_inflight_per_family", "error_iff_all_failed", "quiescent_inflight", "completes_when_idle",
+    "all_failed_completes", "model_run_ok_refuted", "model_run_ok_partial", "first_success_wins",
+    "one_stream_per_entry",
 ]]
 TRUSTED = [
     "asyncio: FIFO order of call_soon callbacks, Future done-callbacks scheduled once, TimerHandle.cancel",
@@ -42,11 +47,11 @@ RULE = ("address lists of 1-4 entries over two families with per-address synchro
         "non-trivial = >=2 streams opened and the future completed")
 EXHAUSTIVE = {"quick": False, "thorough": False}
 CLAUSES = {
-    "a TCP connect completes exactly once": "resolved_once + outcome_stable (at most once, never changes); that it does complete at quiescence: tie only (Spec clause 6)",
-    "with the first connection that succeeded": "winner_is_first_success + winner_step + ok_only_from_success",
-    "or with an error once every address has failed or the timeout fired": "timeout_only_from_ctick + fail_only_from_failure_or_tick; split_keeps_every_entry (the attempt queues hold len(addrinfo) entries, the start value of `remaining`); 'every address has failed' => error, and only then: tie only (Spec clauses 3, 6, 8, error_iff_all_failed_goal)",
-    "every other socket it opened is closed": "no_new_streams_after_done; tie only: losers_closed_goal (Spec clause 4)",
-    "at most one attempt per address family is in flight at a time": "tie only: one_inflight_per_family_goal (Spec clause 5)",
+    "a TCP connect completes exactly once": "resolved_once + outcome_stable (at most once, never changes); that it does complete at quiescence: completes_when_idle (Spec clause 6 on every reachable state) + quiescent_inflight",
+    "with the first connection that succeeded": "first_success_wins (Spec clause 2 for every reachable pending state and every batch without fail-then-succ of one stream) + winner_is_first_success_reachable + winner_step_reachable (no hypothesis on `delivered`: inflight_undelivered) + winner_is_first_success + winner_step + ok_only_from_success",
+    "or with an error once every address has failed or the timeout fired": "timeout_only_from_ctick + fail_only_from_failure_or_tick; split_keeps_every_entry (the attempt queues hold len(addrinfo) entries, the start value of `remaining`); error_iff_all_failed (an error other than the timeout => every ENTRY was attempted and every stream failed; from inv_reachable / remaining_accounting: remaining = queued + undelivered across both queues); 'every address has failed' => completed: all_failed_completes (Spec clause 8) + completes_when_idle; model_run_ok_goal is false as stated (model_run_ok_refuted: ill-formed batch `fail s, succ s`); model_run_ok_partial: the whole checker (clauses 1-8) accepts every model run on schedules satisfying the decidable side condition wfEvents",
+    "every other socket it opened is closed": "losers_closed (Spec clause 4 on every reachable state: winner open, every other stream closed; all closed after error/timeout) + no_new_streams_after_done",
+    "at most one attempt per address family is in flight at a time": "one_inflight_per_family (Spec clause 5 on every reachable state; one_inflight_per_family_general: any number of families)",
 }
 PARALLEL = False      # 5000 cases take ~2.5 s serially; a forked pool only adds stalls on a loaded machine
 CASE_TIMEOUT = 60
